@@ -679,3 +679,76 @@ fn kd7_refused_call_without_space_is_harmless() {
     core::mem::forget(stream);
     core::mem::forget(state);
 }
+
+/// The two header-CRC bytes of a gzip header are written exactly once and are the CRC-32 (low 16 bits) of the header bytes
+/// before them, however full the pending buffer is when the Hcrc state is reached and however little output space the caller
+/// gives (C20 "however small the output chunks are"; C06 progress).  The header's last field is a name of NAME_LEN bytes
+/// (terminator included) written into an empty 32-byte pending buffer in the same call, so that 32 - NAME_LEN bytes of room
+/// are left for the CRC; the first call gets `a1` bytes of output space, the second ample space (all concrete: R11).
+fn gzip_hcrc_instance<const NAME_LEN: usize>(a1: u32) {
+    const LBR: usize = 8; // pending buffer = 32 bytes
+    let mut w = [0u8; 2 << WB7];
+    let mut p = [0u16; 1 << WB7];
+    let mut h = [0u16; HASH_SIZE];
+    let mut pe = [MaybeUninit::new(0u8); 4 * LBR];
+    let mut sy = [0u8; 3 * LBR];
+    let mut state = typed_state(&mut w, &mut p, &mut h, &mut pe, &mut sy, WB7, LBR, 6, 2, Strategy::Default);
+    state.window_size = 2 << WB7;
+    state.last_flush = -1;
+    state.status = Status::Name;
+    state.gzindex = 0;
+    let mut name = [b'n'; NAME_LEN];
+    name[NAME_LEN - 1] = 0;
+    let mut gz = gz_header::default();
+    gz.hcrc = 1;
+    gz.name = name.as_mut_ptr();
+    state.gzhead = Some(unsafe { &mut *(&mut gz as *mut gz_header) });
+    let mut stream = typed_stream(unsafe { &mut *(&mut state as *mut State) });
+    let crc0: u32 = kani::any(); // CRC of the header bytes written before the name
+    stream.adler = crc0 as _;
+    let input = [9u8];
+    let mut out = [0u8; 64];
+    stream.next_in = input.as_ptr() as *mut u8;
+    stream.avail_in = 1;
+    stream.next_out = out.as_mut_ptr();
+    stream.avail_out = a1;
+    let rc1 = deflate(&mut stream, DeflateFlush::Finish);
+    assert!(matches!(rc1, ReturnCode::Ok | ReturnCode::StreamEnd));
+    let produced1 = (a1 - stream.avail_out) as usize;
+    let mut produced = produced1;
+    if rc1 != ReturnCode::StreamEnd {
+        stream.avail_out = 64 - produced1 as u32;
+        let rc2 = deflate(&mut stream, DeflateFlush::Finish);
+        assert!(rc2 == ReturnCode::StreamEnd, "ample space: the stream completes");
+        produced = 64 - stream.avail_out as usize;
+    }
+    assert!(produced == NAME_LEN + 2 + 8, "name, two CRC bytes, trailer");
+    assert!(out[NAME_LEN - 2] == b'n' && out[NAME_LEN - 1] == 0);
+    let want = crate::crc32::crc32(crc0, &name); // the model under CBMC, the real CRC-32 under replay
+    assert!(out[NAME_LEN] == want as u8 && out[NAME_LEN + 1] == (want >> 8) as u8, "CRC16 of the header bytes before it, little endian, once");
+    kani::cover!(crc0 == 0x1234_5678);
+    core::mem::forget(stream);
+    core::mem::forget(state);
+}
+
+macro_rules! gzip_hcrc_harness {
+    ($name:ident, $nl:expr, $a1:expr) => {
+        #[kani::proof]
+        #[kani::unwind(36)]
+        #[kani::stub(core::fmt::write, stub_fmt_write)]
+        #[kani::stub(core::panicking::panic_nounwind, stub_pn)]
+        #[kani::stub(core::panicking::panic_nounwind_fmt, stub_pnf)]
+        #[kani::stub(crate::deflate::algorithm::run, stub_run_consume_all)]
+        #[kani::stub(<[u16]>::fill, stub_fill_zero)]
+        #[kani::stub(crate::crc32::crc32, stub_crc_model)]
+        #[kani::stub(core::ffi::CStr::from_ptr, stub_cstr_from_ptr)]
+        fn $name() {
+            gzip_hcrc_instance::<$nl>($a1);
+        }
+    };
+}
+gzip_hcrc_harness!(kd7_gzip_hcrc_room0_out1, 32, 1);
+gzip_hcrc_harness!(kd7_gzip_hcrc_room1_out1, 31, 1);
+gzip_hcrc_harness!(kd7_gzip_hcrc_room1_out40, 31, 40);
+gzip_hcrc_harness!(kd7_gzip_hcrc_room2_out1, 30, 1);
+gzip_hcrc_harness!(kd7_gzip_hcrc_room3_out40, 29, 40);
